@@ -20,6 +20,11 @@ CHECKS = {
          "For a multi-task plant with nested function->FB->function calls and loops: every budget point of the fault cycle is enumerated (H2) in the k=all cases and sampled otherwise, crossed with all fault kinds, policies, watchdog actions, seeded safe-state maps and driver failure sets. After each fault: latched, every later cycle refused with zero statements / zero driver calls / no variable or image change until restart, and under safe_halt (or watchdog halt|safe_halt) every configured address holds its value in the image and in every healthy driver's last delivery, delivered before the Fault event. Enumeration is complete per case over the statement boundaries of the chosen cycle; the cross product is sampled.",
          "Trusts the H2 budget hook placement (check_execution_budget is reached at every statement entry and loop iteration), the plant corpus being representative for nesting, and the safe-image bit model. Runner loop (watchdog timer, restart-on-fault) is a stub.",
          "DESIGN.md section 3 C08"),
+ "C10": ("fault_enumeration",
+         "deterministic simulation with crash-point enumeration: real FileRetainStore over a logging fs shim; every prefix of the recorded system-call log of store() and byte cuts of each write materialised as post-crash disk; short-write/EINTR/ENOSPC injection; stored-byte corruption under a counting allocator",
+         "Per seeded snapshot pair (all 31 retainable value shapes, boundary bit patterns, nested containers): clean round trip; then for EVERY prefix of the file-system call sequence of store(s_new) and sampled byte cuts of each write, the disk a dying process leaves is materialised and load() must return exactly s_old or s_new (never Err, empty or mixed); short writes and EINTR must be absorbed; every truncation and seeded bit flips / length blow-ups / splices / garbage / 200k-deep nesting of the stored bytes must load as Ok or Err with no panic, abort or single allocation beyond 64x file size. Crash points are enumerated completely per pair; pairs and corruptions are sampled.",
+         "Trusts the fs shim (H3) logging every mutation FileRetainStore performs and the process-death disk model (completed system calls visible, last write possibly torn). Power-loss reordering is not judged.",
+         "DESIGN.md section 3 C10"),
  "C09": ("exploration",
          "deterministic simulation: seeded retain-qualified programs x histories of cycles / restarts / saves / power cycles / value faults, differential twin (fresh runtime + model's retained set) driven in lock-step",
          "Seeded search over programs (13 retainable shapes x 4 qualifiers x global/program level, SINGLE variable with seeded init and qualifier, event + cyclic + background programs, task-bound FB instance, %I/%Q bindings, VAR_ACCESS paths) and histories; after every warm/cold restart and power cycle a newly built runtime plus the model's retained set is driven with the same operations and compared after every one: all variables, output image, time, cycle counter, fault latch, executed tasks, access-path reads. Sampling, not proof.",
